@@ -486,6 +486,18 @@ func addClosures(out *[]*program) {
 			alts: []string{"", "(let ((cnt 100)) (defun @f2 () (setq cnt (+ cnt 2))))"},
 			main: "(@f1)"})
 	}
+	// clo4: the reverse - a function defined inside a let is REdefined at top level and its new body reads a global
+	// variable named like the old let variable: nothing of the old closure may survive. The let form comes before the
+	// defvar so that the let variable is an ordinary lexical variable when the closure is made.
+	for _, cn := range []string{"body", "if", "letinit"} {
+		c := ctxByName(cn)
+		*out = append(*out, &program{fam: "closure", id: "closure:redef-out-of-let:" + cn, feats: []string{"closure"},
+			defs: []string{"(defvar @n 1)", "(defun @f1 (x) " + callExpr(c, 2, []string{"(tr 'f1a1 x)"}) + ")",
+				"(let ((@n 10)) (defun @f2 (pa) (tr 'clo (+ pa @n))))"},
+			alts:   []string{"", "", "(defun @f2 (pa) (tr 'top (+ pa @n)))"},
+			before: [][2]int{{2, 0}},
+			main:   "(@f1 4)"})
+	}
 	// clo3: a plain function is REdefined inside a let (the redefinition modes use the alt)
 	for _, cn := range []string{"body", "if"} {
 		c := ctxByName(cn)
